@@ -35,6 +35,21 @@ pub fn generate(rng: &mut Rng, thorough: bool) -> Vec<String> {
             _ => format!("{} {} {} {} {} {}", rng.range(0, 23), rng.range(0, 59), rng.range(0, 59), rng.range(0, 999), rng.range(0, 999), rng.range(0, 999)),
         }
     };
+    // EpochNanoseconds::try_from(i128 / u128 / f64): the limits, the type limits, values that wrap when cast
+    {
+        let max: i128 = 8_640_000_000_000_000_000_000;
+        let mut iv: Vec<i128> = vec![0, 1, -1, max, max + 1, -max, -max - 1, max - 1, 1 - max, i128::MAX, i128::MIN, i128::MAX - 1, i128::MIN + 1, 1 << 100, -(1 << 100), 1 << 64, -(1 << 64), (1 << 64) - 1];
+        for _ in 0..40 { iv.push(rng.range(-max - 1000, max + 1000)); iv.push(rng.range(-1_000_000_000_000, 1_000_000_000_000)); }
+        for x in &iv { v.push(format!("en_i128 {x}")); }
+        let top: u128 = u128::MAX;
+        let mut uv: Vec<u128> = vec![0, 1, max as u128, max as u128 + 1, max as u128 - 1, (1u128 << 127) - 1, 1u128 << 127, (1u128 << 127) + 1, top, top - 1, top - max as u128, top - max as u128 + 1, top - max as u128 - 1, 1u128 << 100, 1u128 << 64];
+        for _ in 0..40 { uv.push(top - rng.range(0, max + 1000) as u128); uv.push(rng.range(0, max + 1000) as u128); uv.push((1u128 << 127) + rng.range(0, max) as u128); }
+        for x in &uv { v.push(format!("en_u128 {x}")); }
+        // integral doubles, exactly representable: m * 2^e with |m| < 2^53
+        let mut fv: Vec<String> = vec!["0".into(), "1".into(), "-1".into(), max.to_string(), (-max).to_string(), (max + (1 << 20)).to_string(), (-max - (1 << 20)).to_string(), (max - (1 << 20)).to_string(), (1u128 << 126).to_string(), (1u128 << 127).to_string(), format!("-{}", 1u128 << 127), (1u128 << 100).to_string(), "nan".into(), "inf".into(), "-inf".into()];
+        for _ in 0..60 { let m = rng.range(-(1 << 52), 1 << 52); let e = rng.range(0, 70) as u32; fv.push((m << e.min(70)).to_string()); }
+        for x in &fv { v.push(format!("en_f64 {x}")); }
+    }
     for _ in 0..n {
         // days: the limits and their neighbours, month ends, anywhere
         let day = match rng.below(5) { 0 => LO + rng.range(-2, 3), 1 => HI + rng.range(-2, 3), 2 => rng.range(-40_000, 40_000), _ => rng.range(LO, HI) };
@@ -84,6 +99,18 @@ fn opt_f(s: &str) -> Option<FiniteF64> {
 pub fn eval(t: &[&str]) -> Option<String> {
     let iso = Calendar::default();
     Some(match t[0] {
+        "en_i128" => render(temporal_rs::time::EpochNanoseconds::try_from(t[1].parse::<i128>().ok()?), |e| e.as_i128().to_string()),
+        "en_u128" => render(temporal_rs::time::EpochNanoseconds::try_from(t[1].parse::<u128>().ok()?), |e| e.as_i128().to_string()),
+        "en_f64" => {
+            let x: f64 = match t[1] {
+                "nan" => f64::NAN,
+                "inf" => f64::INFINITY,
+                "-inf" => f64::NEG_INFINITY,
+                s if s.starts_with('-') => s.parse::<i128>().ok()? as f64,
+                s => s.parse::<u128>().ok()? as f64,
+            };
+            render(temporal_rs::time::EpochNanoseconds::try_from(x), |e| e.as_i128().to_string())
+        }
         "pd_ctor" => {
             let (y, m, d) = (i(t[1]) as i32, i(t[2]) as u8, i(t[3]) as u8);
             render(if t[4] == "new" { PlainDate::new(y, m, d, iso) } else { PlainDate::try_new(y, m, d, iso) }, |p| fmt_date(&p))
